@@ -2,6 +2,7 @@ package quicmemberlist
 
 import (
 	"net"
+	"sync"
 
 	"github.com/spikeekips/mitum/base"
 	"github.com/spikeekips/mitum/util/logging"
@@ -42,6 +43,7 @@ type verifC37World struct {
 	addrs   []*net.UDPAddr // addr k belongs to node k / verifC37Addrs
 	present []bool
 	gen     []int // how many times addr k was joined (the member object of the latest join)
+	owner   []int // the node the latest join of addr k was announced under
 }
 
 func verifC37NewWorld() *verifC37World {
@@ -51,15 +53,20 @@ func verifC37NewWorld() *verifC37World {
 		w.nodes = append(w.nodes, verifC37Address(names[n]))
 		for a := 0; a < verifC37Addrs; a++ {
 			// distinct ports on two hosts; an IPv4 address in 4-byte form
-			w.addrs = append(w.addrs, &net.UDPAddr{IP: net.IP{10, 0, 0, byte(1 + n)}, Port: 4000 + a})
+			w.addrs = append(w.addrs, &net.UDPAddr{IP: net.IP{10, 0, 0, byte(1 + n)}, Port: 4000 + 10*(a+1)}) // ports differ in more than the last digit: util.ShardedMap ignores the last character of a key, such ids would share a shard lock
 		}
 	}
 	w.present = make([]bool, len(w.addrs))
 	w.gen = make([]int, len(w.addrs))
+	w.owner = make([]int, len(w.addrs))
+	for k := range w.owner {
+		w.owner[k] = k / verifC37Addrs
+	}
 	return w
 }
 
-func (w *verifC37World) nodeOf(k int) int { return k / verifC37Addrs }
+// nodeOf: the node addr k currently belongs to (an address can join again under another node)
+func (w *verifC37World) nodeOf(k int) int { return w.owner[k] }
 
 // member builds the Member a join event of addr k carries (what newMemberFromMemberlist
 // produces from a memberlist.Node: name, udp addr, node address in the meta).
@@ -201,6 +208,10 @@ func verifC37History(join func(Member), leave func(Member), check func(w *verifC
 				rejoined = true
 			}
 			w.gen[k]++
+			// thorough (and one address in quick): the join may be announced under the other node
+			if verifrt.Bound("crossnode", 1, 1) == 1 && (k == 0 || verifrt.Bound("crossnode.all", 0, 1) == 1) {
+				w.owner[k] = verifrt.NondetChoice("joining-node", verifC37Nodes)
+			}
 			join(w.member(k))
 			w.present[k] = true
 		} else {
@@ -276,4 +287,48 @@ func VerifC37Memberlist() {
 			}
 		}
 	})
+}
+
+
+// VerifC37ConcurrentEvents: two memberlist events for DIFFERENT addresses of the same node are
+// handled at the same time (the events delegate is called from several goroutines): events on
+// different addresses commute, so afterwards the table equals the model whatever the interleaving.
+func VerifC37ConcurrentEvents() {
+	local := BaseMember{
+		name: "local",
+		addr: &net.UDPAddr{IP: net.IP{10, 0, 0, 9}, Port: 4000},
+		meta: memberMeta{address: verifC37Address("local-mca")},
+	}
+	srv := &Memberlist{
+		Logging:  logging.NewLogging(nil),
+		local:    local,
+		args:     &MemberlistArgs{WhenLeftFunc: func(Member) {}},
+		members:  newMembersPool(),
+		delegate: NewDelegate(local, func() int { return 1 }, nil),
+	}
+	w := verifC37NewWorld()
+	// addresses 0 and 1 belong to node 0; optionally address 1 is already a member
+	if verifrt.NondetChoice("preset", 2) == 1 {
+		srv.whenJoined(w.member(1))
+		w.present[1] = true
+	}
+	ev := [2]bool{verifrt.NondetChoice("event0-is-leave", 2) == 1, verifrt.NondetChoice("event1-is-leave", 2) == 1}
+	var wg sync.WaitGroup
+	for i := 0; i < 2; i++ {
+		wg.Add(1)
+		k, leave := i, ev[i]
+		go func() {
+			defer wg.Done()
+			if leave {
+				srv.whenLeft(w.member(k))
+			} else {
+				srv.whenJoined(w.member(k))
+			}
+		}()
+		w.present[k] = !leave
+	}
+	wg.Wait()
+	verifrt.Reach("C37.concurrent.joined")
+	w.check(srv.members, verifC37ObsPresence)
+	w.check(srv.members, verifC37ObsNodeLists)
 }
